@@ -6,7 +6,6 @@ import (
 	"context"
 	"fmt"
 	"math"
-	"strconv"
 	"strings"
 	"testing"
 
@@ -46,14 +45,11 @@ func d8Fold(n *Node) *Node {
 	c := n.Clone()
 	c.Walk(func(x *Node) {
 		if integralNumeric(x) && math.Abs(x.F) < 9.2e18 {
-			// the integer that the printed digits spell: beyond 2^53 the shortest decimal
-			// form of the double is not its exact value (2.7000000001e18 prints as
-			// 2700000000100000000, the double is ...099999744)
-			i, err := strconv.ParseInt(strconv.FormatFloat(x.F, 'f', -1, 64), 10, 64)
-			if err != nil {
-				i = int64(x.F)
-			}
-			x.K, x.I, x.F = KInt, i, 0
+			// the integer literal of the same value: finding D8 is the change of the node's kind, not
+			// a change of the number (D56: beyond 2^53 the digits printed were the shortest ones that
+			// read back as the same double, 2^62 -> 4611686018427388000, and the integer literal
+			// they spell is another number)
+			x.K, x.I, x.F = KInt, int64(x.F), 0
 		}
 	})
 	return c
@@ -540,7 +536,7 @@ func TestC02(t *testing.T) {
 		Keys:     append([]string{"a", "b", "c", "key"}, stringCorpus...),
 		VarNames: []string{"x", "y", "a b", "é", "\u0007", "\U000e0001", "q\"q"},
 		Strs:     append([]string{"a", "abc", "2015-08-01"}, stringCorpus...),
-		Nums:     []float64{0.5, 1.5, 2.0, 4.0, 0.0, 1e3, 1e20, 1e21, 1e22, 1e-6, 1e-7, 1e308, 5e-324, 9007199254740993.0, 0.1, 123456789.125},
+		Nums:     []float64{0.5, 1.5, 2.0, 4.0, 0.0, 1e3, 1e20, 1e21, 1e22, 1e-6, 1e-7, 1e308, 5e-324, 9007199254740993.0, 0.1, 123456789.125, 4611686018427387904.0, 1234567890123456789.0, 2.7000000001e18},
 	}
 	dcfg := DocCfg{}
 	ev.rapidProp(t, "random", func(rt *rapid.T) {
